@@ -36,6 +36,9 @@ func init() {
 	registerRule("R42", ruleR42)
 	registerRule("R36", ruleR36)
 	registerRule("R41", ruleR41)
+	registerRule("R47", ruleR47)
+	registerRule("R48", ruleR48)
+	registerRule("R49", ruleR49)
 	registerRule("R39", ruleR39R40)
 	registerRule("R40", func(c *Ctx) { c.run("R39") })
 	registerRule("R37", func(c *Ctx) { c.run("R21") })
@@ -105,15 +108,15 @@ func init() {
 		NotDecided: "The sign-magnitude→biased mask arithmetic itself and hence monotonicity/injectivity for every bit pattern: that needs enumeration or a solver, which static analysis excludes."})
 	registerProp(&propSpec{ID: "C10", Level: "other", DesignRef: "§4 C10", QuickArchs: []string{"amd64", "arm64", "386"},
 		Rules:      []string{"R19", "R09", "R10", "R22", "R20", "R37", "R41", "R43", "R44"},
-		Explain:    "R19 every use of a 4-lane SWAR search result as an index is under result < fill count (the search sees all four lanes, occupied or not), and deleteChild – the one unguarded user – is only called for a byte proven registered by findChild on the same reference; R09 the byte→child lookup of each size class and every inlined copy of it agree; R10 constant-range indexes fit [4]/[16]/[48]/[256]; R22 capacity guards equal the array lengths and shrink thresholds fit the smaller class; R20 each architecture sibling of the 16-lane routines (amd64 asm, arm64 asm, portable Go) makes its result depend on keys, fill count and probe byte, compares unsigned, and stores nothing but the result. R37 a class whose deleteChild leaves holes never takes slot childrenLen; R41 every deleteChild path vacates the slot; R43 every addChild path stores one child and bumps the fan-out once.",
+		Explain:    "R19 every use of a 4-lane SWAR search result as an index is under result < fill count (the search sees all four lanes, occupied or not), and deleteChild – the one unguarded user – is only called for a byte proven registered by findChild on the same reference; R09 the byte→child lookup of each size class and every inlined copy of it agree; R10 constant-range indexes fit [4]/[16]/[48]/[256]; R22 capacity guards equal the array lengths and shrink thresholds fit the smaller class; R20 each architecture sibling of the 16-lane routines (amd64 asm, arm64 asm, portable Go) makes its result depend on keys, fill count and probe byte, compares unsigned, and stores nothing but the result. R37 a class whose deleteChild leaves holes never takes slot childrenLen; R41 every deleteChild path vacates the slot; R43 every addChild path stores one child and bumps the fan-out once. R47 a single-lane store into the packed node4 key word replaces the lane (the lane is cleared on every path before the byte is OR-ed in): the removal shift leaves the former top lane as it was, so lanes beyond the fill count are not zero.",
 		NotDecided: "The SWAR/SIMD bit arithmetic (2^40 / 2^140 inputs): that insertPosNode4/16 return the sorted position and searchNode4 the first matching lane."})
 	registerProp(&propSpec{ID: "C11", Level: "other", DesignRef: "§4 C11",
 		Rules:      []string{"R06", "R07", "R21", "R22", "R23", "R03", "R04", "R24", "R37", "R41", "R43", "R10"},
-		Explain:    "R06 a reference is only ever read through the layout its tag names (120 casts under tag facts, 48 reference literals pairing pointer type and tag, pool assertions); R07 every kind switch has one arm per inner kind and a panicking default; R21 every grow/shrink copies every header field (prefixLen, childrenLen, prefix) to the replacement before releasing the old node; R22 capacity guards/thresholds are coherent with the array lengths; R23 node fields are written only by the node layer and the Insert split paths; R03/R04 the number of linked leaves moves in step with size on every path; R24 nodes are released only after the slot is relinked. R22 also: prefixLen is as wide as the leaves' key-length fields; R37/R41/R43 slot allocation, vacate-on-delete and fan-out bookkeeping of the node layer; R10 the grow/shrink loops over a byte-indexed table cover all 256 entries.",
+		Explain:    "R06 a reference is only ever read through the layout its tag names (120 casts under tag facts, 48 reference literals pairing pointer type and tag, pool assertions); R07 every kind switch has one arm per inner kind and a panicking default; R21 every grow/shrink copies every header field (prefixLen, childrenLen, prefix) to the replacement before releasing the old node; R22 capacity guards/thresholds are coherent with the array lengths; R23 node fields are written only by the node layer and the Insert split paths; R03/R04 the number of linked leaves moves in step with size on every path; R24 nodes are released only after the slot is relinked. R22 also: prefixLen is as wide as the leaves' key-length fields; R37/R41/R43 slot allocation, vacate-on-delete and fan-out bookkeeping of the node layer; R10 the grow/shrink loops over a byte-indexed table cover all 256 entries. R47 the packed key word registers a child under exactly its byte (lane cleared before the OR).",
 		NotDecided: "That prefix lengths/bytes equal the common extension of the keys below a node after split and merge (byte arithmetic), and history independence of the shape."})
 	registerProp(&propSpec{ID: "C12", Level: "other", DesignRef: "§4 C12",
 		Rules:      []string{"R24", "R25", "R30", "R06", "R14", "R42"},
-		Explain:    "Pool typestate for each of the 7 releases: the node is cleared in the statement before Put, clear() resets every field of the struct (header included), the node is not used after release, the slot referencing it was overwritten before, its type matches the pool index, and every Get is asserted to the layout of its index (R24, R06); the only per-tree state is {root, size, codec} written only by Insert/Delete, and the root-leaf delete stores the zero reference, so an emptied tree equals a new one (R25, R14); the only package-level state is the sync.Pool array used through Get/Put (R30) – hence trees share no mutable memory except cleared, unreferenced pool objects. R24 also: every replace site releases the old node by the same idiom; R42 nothing a constructor or option stores into a tree is a package-level object.",
+		Explain:    "Pool typestate for each of the 7 releases: the node is cleared in the statement before Put, clear() resets every field of the struct (header included), the node is not used after release, the slot referencing it was overwritten before, its type matches the pool index, and every Get is asserted to the layout of its index (R24, R06); the only per-tree state is {root, size, codec} written only by Insert/Delete, and the root-leaf delete stores the zero reference, so an emptied tree equals a new one (R25, R14); the only package-level state is the sync.Pool array used through Get/Put (R30) – hence trees share no mutable memory except cleared, unreferenced pool objects. R24 also: every replace site releases the old node by the same idiom; R42 nothing a constructor or option stores into a tree is a package-level object. R49 an object handed to a sync.Pool other than the node pool table (a pooled traversal stack) goes back empty or is emptied by every taker, and is not used after Put; R25 accepts further tree fields only when constructors and options alone write them.",
 		NotDecided: "Nothing value-level beyond C01/C11; sync.Pool's own behaviour is trusted."})
 	registerProp(&propSpec{ID: "C18", Level: "other", DesignRef: "§4 C18",
 		Rules:      []string{"R32", "R33", "R06", "R16"},
@@ -133,14 +136,14 @@ func init() {
 		NotDecided: "The Go memory model guarantees of sync.Pool (trusted); a user-supplied compound codec with shared mutable state (premise of the property)."})
 	registerProp(&propSpec{ID: "C17", Level: "other", DesignRef: "§4 C17",
 		Rules:      []string{"R17", "R29", "R04", "R24", "R03", "R30"},
-		Explain:    "Structural content of 'no per-operation leak': R29/R31 nothing a query allocates is stored into memory that outlives the call; R17 the sort key is copied out of the tree-lifetime collate.Buffer and the buffer is reset on every path, so it neither grows with the number of operations nor is aliased by stored leaves; R03 an overwrite of a present key stores only the value; R04 a successful Delete overwrites the slot that held the leaf (the leaf and its key bytes become unreachable); R24 emptied nodes go back to the pool cleared. R30 the pool is a sync.Pool (collectable), not a hand-written free list.",
+		Explain:    "Structural content of 'no per-operation leak': R29/R31 nothing a query allocates is stored into memory that outlives the call; R17 the sort key is copied out of the tree-lifetime collate.Buffer and the buffer is reset on every path, so it neither grows with the number of operations nor is aliased by stored leaves; R03 an overwrite of a present key stores only the value; R04 a successful Delete overwrites the slot that held the leaf (the leaf and its key bytes become unreachable); R24 emptied nodes go back to the pool cleared. R30 the pool is a sync.Pool (collectable), not a hand-written free list. R48 the byte strings a key codec's Transform returns are memory it allocated or the plain conversion of the key, never an unsafe view of the caller's string (the compound tree stores them as they are, so a view pins the allocation the key was cut from).",
 		NotDecided: "Actual heap numbers; stale duplicates left in unoccupied child slots by copy-shifting are bounded by node capacity (noted, not flagged)."})
 
 	// Attribution by implication: a defect of the shared node layer (a lost or misplaced child, a
 	// wrong fan-out, a dereferenced nil) breaks every behavioural property of every tree kind, and
 	// a defect of the traversals every property about what iteration yields. The rules below are
 	// therefore run for, and their obligations attributed to, these properties as well.
-	nodeLayer := []string{"R06", "R07", "R09", "R10", "R19", "R21", "R22", "R37", "R41", "R43", "R44"}
+	nodeLayer := []string{"R06", "R07", "R09", "R10", "R19", "R21", "R22", "R37", "R41", "R43", "R44", "R47"}
 	for _, r := range nodeLayer {
 		impliedProps[r] = append(impliedProps[r], "C01", "C02", "C06", "C08", "C09", "C10", "C11")
 	}
@@ -156,6 +159,8 @@ func init() {
 	impliedProps["R46"] = append(impliedProps["R46"], "C01", "C03", "C04", "C08", "C09", "C11")
 	impliedProps["R17"] = append(impliedProps["R17"], "C14", "C08")
 	impliedProps["R26"] = append(impliedProps["R26"], "C14", "C17")
+	impliedProps["R48"] = append(impliedProps["R48"], "C17")
+	impliedProps["R49"] = append(impliedProps["R49"], "C12", "C14", "C16")
 	impliedProps["R29"] = append(impliedProps["R29"], "C08")
 	for r, ps := range impliedProps {
 		for _, p := range ps {
